@@ -170,5 +170,6 @@ REGISTRY = {
             "a retried call gets the same input (same event / rumor); fresh randomness of a retried local call is abstracted",
             "single process, single thread per database"]},
     "C04": {"props_file": "Props/C04.v", "gen": [], "harness": PROTO_HARNESS, "trusted_base": PROTO_TRUST, "assumptions": PROTO_ASSUME},
-    "C11": {"props_file": "Props/C11.v", "gen": [], "harness": PROTO_HARNESS, "trusted_base": PROTO_TRUST, "assumptions": PROTO_ASSUME},
+    "C11": {"props_file": "Props/C11.v", "gen": [], "harness": PROTO_HARNESS + [STORAGE_HARNESS[1]], "trusted_base": PROTO_TRUST + STORAGE_TRUST[1:],
+            "assumptions": PROTO_ASSUME + ["storage layer: the SQLite file is closed and reopened (clean shutdown, unencrypted file) at random positions (about 1 operation in 100) of the storage operation sequences; encrypted reopen is exercised under C13"]},
 }
